@@ -48,6 +48,7 @@ type Ctx struct {
 	defs     []string
 	dts      map[string]bool
 	dtDecls  []string
+	eltSeq   map[string][2]string // elt accessor -> (Seq sort, element sort)
 	obls     []Obligation
 	strlits  map[string]string
 	heap0    map[string]string
@@ -516,10 +517,34 @@ func (c *Ctx) eltFrame(k, nh, old, bound string) string {
 		c.n, c.n, c.n, bound, name, nh, c.n, c.n, name, old, c.n, c.n, name, nh, c.n, c.n)
 }
 
+// seqBridges connects the two spellings of "element k of slice s": the accessor elt_T(heap, s, k) used by function
+// contracts and code, and sqat(seq(s), k) used inside specdefs and lemmas over sequence parameters. Without it a lemma
+// whose pattern mentions a[j] never fires on an element the code has read.
+func (c *Ctx) seqBridges() string {
+	var names []string
+	for n := range c.eltSeq {
+		names = append(names, n)
+	}
+	sort.Strings(names)
+	var b strings.Builder
+	for _, n := range names {
+		sq := c.eltSeq[n]
+		if !c.dts[sq[0]] {
+			continue
+		}
+		fmt.Fprintf(&b, "(assert (forall ((e (Array Int (Array Int %s))) (s Slice) (k Int)) (! (= (%s e s k) (sqat_%s (mk-%s (select e (sl.arr s)) (sl.off s) (sl.len s)) k)) :pattern ((%s e s k)))))\n", sq[1], n, sq[0], sq[0], n)
+	}
+	return b.String()
+}
+
 func (c *Ctx) eltFn(elem types.Type) string {
 	c.sortOf(types.NewSlice(elem))
 	es := c.sortOf(elem)
 	name := "elt_" + sanitize(types.TypeString(elem, func(p *types.Package) string { return p.Name() }))
+	if c.eltSeq == nil {
+		c.eltSeq = map[string][2]string{}
+	}
+	c.eltSeq[name] = [2]string{"Seq_" + sanitize(es), es}
 	if !c.dts[name] {
 		c.dts[name] = true
 		c.dtDecls = append(c.dtDecls, fmt.Sprintf("(declare-fun %s ((Array Int (Array Int %s)) Slice Int) %s)", name, es, es))
@@ -734,6 +759,7 @@ func (fr *Frame) oblige(st *State, kind string, phi string, pos token.Pos) {
 	for _, d := range c.dtDecls {
 		b.WriteString(d + "\n")
 	}
+	b.WriteString(c.seqBridges())
 	for _, d := range c.decls {
 		b.WriteString(d + "\n")
 	}
@@ -2876,7 +2902,8 @@ func (fr *Frame) applyContract(st *State, x *ssa.Call, callee *ssa.Function, fc 
 		pv := fr.evalExpr(basePath, &Env{fr: fr, st: pre, old: pre, binds: binds, noLocals: true})
 		hk, ft := c.heapKey(n, fi)
 		if !fr.writeAll {
-			fr.oblige(st, fmt.Sprintf("call[%s].frame.write[%s]@%d", key, m, c.prog.Fset.Position(x.Pos()).Line), fr.writePerm(hk, pv.T), x.Pos())
+			// a nil base names no location (the callee can only have written an object it allocated itself)
+			fr.oblige(st, fmt.Sprintf("call[%s].frame.write[%s]@%d", key, m, c.prog.Fset.Position(x.Pos()).Line), fmt.Sprintf("(=> (not (= %s 0)) %s)", pv.T, fr.writePerm(hk, pv.T)), x.Pos())
 		}
 		if isSyncMap(ft) {
 			kd, kv, dom, val := c.syncMapHeaps(st, hk)
